@@ -27,6 +27,34 @@
         __CPROVER_assume(VEC_VAL_OK(c));                                                      \
         return c;                                                                             \
     }                                                                                         \
+    /* back()/front() as lvalues: a fresh cell (never inside a loop that carries a loop contract: dfcc forbids allocation there) */ \
+    static inline T *NAME##_cellp(NAME *v, size_t i)                                          \
+    {                                                                                         \
+        MODEL_ASSERT(i < v->n, "std::vector element access on an empty vector / out of range (undefined behaviour)"); \
+        T *c = (T *)pw_fresh(sizeof(T));                                                      \
+        *c = nondet_##NAME##_elem();                                                          \
+        __CPROVER_assume(VEC_VAL_OK(*c));                                                     \
+        return c;                                                                             \
+    }                                                                                         \
+    static inline T *NAME##_back(NAME *v) { return NAME##_cellp(v, v->n - 1); }              \
+    static inline T *NAME##_front(NAME *v) { return NAME##_cellp(v, 0); }                    \
+    static inline void NAME##_erase_pos(NAME *v, size_t i)                                    \
+    {                                                                                         \
+        MODEL_ASSERT(i < v->n, "std::vector::erase: iterator not dereferenceable (undefined behaviour)"); \
+        v->n = v->n - 1;                                                                      \
+    }                                                                                         \
+    static inline void NAME##_insert_pos(NAME *v, size_t i, T x)                              \
+    {                                                                                         \
+        (void)x;                                                                              \
+        MODEL_ASSERT(i <= v->n, "std::vector::insert: iterator out of range (undefined behaviour)"); \
+        __CPROVER_assume(v->n + 1 != 0);                                                      \
+        v->n = v->n + 1;                                                                      \
+    }                                                                                         \
+    static inline void NAME##_erase_range(NAME *v, size_t i, size_t j)                        \
+    {                                                                                         \
+        MODEL_ASSERT(i <= j && j <= v->n, "std::vector::erase(first, last): invalid range (undefined behaviour)"); \
+        v->n = v->n - (j - i);                                                                \
+    }                                                                                         \
     static inline void NAME##_push_back(NAME *v, T x)                                         \
     {                                                                                         \
         (void)x;                                                                              \
